@@ -55,7 +55,9 @@ int ifdef_ignore(AsmContext *asm_context)
         if (nested_if == 0) { return 2; }
       }
         else
-      if (strcasecmp(token, "if") == 0 || strcasecmp(token, "ifdef") == 0)
+      if (strcasecmp(token, "if") == 0 ||
+          strcasecmp(token, "ifdef") == 0 ||
+          strcasecmp(token, "ifndef") == 0)
       {
         nested_if++;
       }
@@ -65,18 +67,44 @@ int ifdef_ignore(AsmContext *asm_context)
 
 int parse_ifdef_ignore(AsmContext *asm_context, int ignore_section)
 {
+  int ret;
+
   if (ignore_section == 1)
   {
-    if (ifdef_ignore(asm_context) == 2)
+    ret = ifdef_ignore(asm_context);
+
+    if (ret == -1) { return -1; }
+
+    // Skipped up to an .else, assemble up to the .endif.
+    if (ret == 2)
     {
-      asm_context->assemble();
+      ret = asm_context->assemble();
+
+      if (ret == -1) { return -1; }
+
+      if (ret != 4)
+      {
+        print_error(asm_context, "Missing endif");
+        return -1;
+      }
     }
   }
     else
   {
-    if (asm_context->assemble() == 2)
+    // assemble() returns 4 at the matching .endif and 2 at an .else.
+    ret = asm_context->assemble();
+
+    if (ret == -1) { return -1; }
+
+    if (ret == 2)
     {
-      ifdef_ignore(asm_context);
+      if (ifdef_ignore(asm_context) != 0) { return -1; }
+    }
+      else
+    if (ret != 4)
+    {
+      print_error(asm_context, "Missing endif");
+      return -1;
     }
   }
 
@@ -112,11 +140,11 @@ int parse_ifdef(AsmContext *asm_context, int ifndef)
     if (ifndef == 0) { ignore_section = 1; }
   }
 
-  parse_ifdef_ignore(asm_context, ignore_section);
+  int ret = parse_ifdef_ignore(asm_context, ignore_section);
 
   asm_context->ifdef_count--;
 
-  return 0;
+  return ret;
 }
 
 int parse_if(AsmContext *asm_context)
@@ -131,17 +159,10 @@ int parse_if(AsmContext *asm_context)
 
   if (num == -1) { return -1; }
 
-  if (num != 0)
-  {
-    parse_ifdef_ignore(asm_context, 0);
-  }
-    else
-  {
-    parse_ifdef_ignore(asm_context, 1);
-  }
+  int ret = parse_ifdef_ignore(asm_context, num != 0 ? 0 : 1);
 
   asm_context->ifdef_count--;
 
-  return 0;
+  return ret;
 }
 
